@@ -6,6 +6,7 @@ mod enginex;
 mod fungen;
 mod isatest;
 mod funref;
+mod genref;
 mod funtemplates;
 mod mach;
 mod minimize;
